@@ -9,7 +9,7 @@ package apph
 //   vb    action.ValidateBasic decisions (and the key handlers' Address()/VerifyBytes) against
 //         `validateBasicK`, with real keys of all four algorithms; monitor: accepted iff every
 //         required signer has, at its position, a signature that verifies with the LIBRARY
-//         primitives (tendermint ed25519 / secp256k1, go-ethereum, btcec) under a key whose
+//         primitives (tendermint ed25519 / secp256k1, go-ethereum, btcec DER) under a key whose
 //         library-computed address is the signer
 //   olvm  (see sigolvm.go) the OLVM handler's validateSigner through CheckTx on a fork-family chain
 
@@ -48,7 +48,7 @@ type sigKey struct {
 	Alg  keys.Algorithm
 	Priv keys.PrivateKey
 	Pub  keys.PublicKey
-	Addr keys.Address // what the repo's handler says (nil for BTCEC)
+	Addr keys.Address // what the repo's handler says
 }
 
 func newSigKey(seed uint64, name string, alg keys.Algorithm) *sigKey {
@@ -137,12 +137,20 @@ func primAddr(pk keys.PublicKey) ([]byte, bool) {
 			return nil, false
 		}
 		return ethcrypto.PubkeyToAddress(*p).Bytes(), true
+	case keys.BTCECSECP:
+		p, err := btcec.ParsePubKey(pk.Data, btcec.S256())
+		if err != nil {
+			return nil, false
+		}
+		var k tmsecp.PubKeySecp256k1
+		copy(k[:], p.SerializeCompressed())
+		return k.Address().Bytes(), true
 	}
 	return nil, false
 }
 
-// primVerify: does sig verify over msg under pk, by the underlying library alone. For BTCEC
-// (where the repo's handler verifies nothing) this is a real DER/ECDSA verification.
+// primVerify: does sig verify over msg under pk, by the underlying library alone (BTCEC: DER
+// signature over msg as given, what PrivateKeyBTCEC.Sign produces).
 func primVerify(pk keys.PublicKey, msg, sig []byte) (ok bool) {
 	defer func() {
 		if recover() != nil {
@@ -456,7 +464,7 @@ func genVB(r *rng.R, pool *keyPool) vbCase {
 		data = t.RawBytes()
 	}
 	n := []int{1, 1, 1, 2, 2, 3}[r.Intn(6)]
-	algs := []keys.Algorithm{keys.ED25519, keys.ED25519, keys.SECP256K1, keys.SECP256K1, keys.ETHSECP}
+	algs := []keys.Algorithm{keys.ED25519, keys.ED25519, keys.SECP256K1, keys.SECP256K1, keys.ETHSECP, keys.BTCECSECP}
 	var ks []*sigKey
 	for i := 0; i < n; i++ {
 		a := algs[r.Intn(len(algs))]
@@ -536,10 +544,18 @@ func genVB(r *rng.R, pool *keyPool) vbCase {
 		pk.KeyType = []keys.Algorithm{0, 5, 99, -1}[r.Intn(4)]
 		c.Sigs[i].Signer = pk
 	case "signer-prefix":
+		if len(c.Signers[i]) < 2 { // a handler without an address (never on the repaired tree)
+			c.Signers[i] = append(c.Signers[i], 1)
+			break
+		}
 		c.Signers[i] = c.Signers[i][:1+r.Intn(len(c.Signers[i])-1)]
 	case "signer-extended":
 		c.Signers[i] = append(c.Signers[i], byte(r.Intn(256)))
 	case "signer-bitflip":
+		if len(c.Signers[i]) == 0 {
+			c.Signers[i] = append(c.Signers[i], 1)
+			break
+		}
 		c.Signers[i][r.Intn(len(c.Signers[i]))] ^= 1 << uint(r.Intn(8))
 	case "empty-signer-btcec-junk", "nil-signer-btcec-junk", "empty-signer-btcec-signed", "btcec-key-nonempty-signer", "btcec-unparseable":
 		b := pool.pick(r, keys.BTCECSECP)
@@ -633,10 +649,7 @@ func vbLine(c *vbCase) string {
 		if alg < 0 {
 			alg = 0 // the line protocol carries naturals; every value outside 1..4 is "unknown"
 		}
-		v := false
-		if g.Signer.KeyType != keys.BTCECSECP { // the BTCEC handler calls no primitive at all
-			v = primVerify(g.Signer, c.Data, g.Signed)
-		}
+		v := primVerify(g.Signer, c.Data, g.Signed)
 		fmt.Fprintf(&sb, " %d %s %s %s %s", alg, hexTok(g.Signer.Data), b01(primParses(g.Signer)), as, b01(v))
 	}
 	return sb.String()
@@ -781,13 +794,7 @@ func evalVB(vc *vbCase, c int, res *Result, add func(op, im string, nt bool)) {
 	ops := []string{"# class " + vc.Class, vbxLine(vc), "# " + op, "# impl " + im}
 	switch {
 	case accepted && !auth:
-		sig := "validatebasic-accepted-unauthentic"
-		for _, g := range vc.Sigs {
-			if g.Signer.KeyType == keys.BTCECSECP {
-				sig = "validatebasic-accepted-unverified-btcec-key"
-			}
-		}
-		hitOnce(res, sig, c, vc.Class+": accepted although "+why, ops)
+		hitOnce(res, "validatebasic-accepted-unauthentic", c, vc.Class+": accepted although "+why, ops)
 	case !accepted && auth:
 		hitOnce(res, "validatebasic-rejected-authentic", c, vc.Class+": every required signer signed, yet "+im, ops)
 	}
@@ -803,9 +810,6 @@ func vbAuthentic(c *vbCase) (ok bool, why string) {
 	}
 	for i, s := range c.Signers {
 		g := c.Sigs[i]
-		if g.Signer.KeyType == keys.BTCECSECP {
-			return false, fmt.Sprintf("position %d: a BTCEC key has no address in this code base; DER verification of its signature: %v", i, primVerify(g.Signer, c.Data, g.Signed))
-		}
 		a, has := primAddr(g.Signer)
 		if !has || !bytes.Equal(a, s) {
 			return false, fmt.Sprintf("position %d: key address %x is not the required signer %x", i, a, []byte(s))
